@@ -740,6 +740,37 @@ CLOSURE_EFFECT_OWNERS = {
     "Metrics": ("C02", "C06", "C10", "C18"),
     "TimeSource": ("C06", "C08", "C12", "C18", "C19"),
 }
+def merged_value_guard(S, x):
+    """Is node x guarded by a `match`/`matches!` on a local that holds one of several *constant* enum values computed
+    earlier (`let reason = match &err { A|B => Omaha, C => Internal, .. }; if matches!(reason, Omaha) { x }`)?  Which
+    original case leads to x is then a relation between two variables that the path rules do not track.  Returns a
+    description or None."""
+    nd = S.nodes[x]
+    bv = nd.ctx.bv
+    for sb in sorted(bv.reach0):
+        tt = bv.blocks[sb]["t"]
+        if tt["k"] != "switch" or len(bv.succ[sb]) < 2:
+            continue
+        sub = bv.switch_subject(sb)
+        if sub is None:
+            # `if matches!(reason, Omaha)`: a boolean that is itself a merge of constants set in the arms of such a match
+            ct = _unflip(bv.trace_op(tt["o"]))
+            if ct[0] == "phi" and len(ct[1]) >= 2 and all(_unflip(a)[0] == "const" for a in ct[1]):
+                for b in bv.succ[sb]:
+                    if bv.dominated_by_edge(nd.bi, [(sb, b)]):
+                        return "%s is decided by a boolean merged from %d constant cases (%s)" % (nd.loc(), len(ct[1]), lib.loc(bv, sb))
+            continue
+        term = bv.trace_place(sub[0]) if isinstance(sub[0], dict) else None
+        if term is None or term[0] != "phi":
+            continue
+        alts_ = [a for a in term[1]]
+        if len(alts_) >= 2 and all(a[0] == "agg" and a[1] == "adt" and not a[3] for a in alts_):
+            for b in bv.succ[sb]:
+                if bv.dominated_by_edge(nd.bi, [(sb, b)]):
+                    return "%s is decided by a value computed earlier from %d cases (%s)" % (nd.loc(), len(alts_), lib.loc(bv, sb))
+    return None
+
+
 FUTURE_OWNERS = {
     "Storage": ("C07", "C08", "C09", "C14", "C18"),
     "Policy": ("C05", "C11", "C12"),
